@@ -1,4 +1,4 @@
-import Libp2pModel.Model.C38
+import Libp2pModel.Model.C38_Walk
 import Libp2pModel.Model.C40
 namespace Driver.C38
 open Drv _root_.C38
@@ -20,72 +20,117 @@ def showKeys (l : List Nat) : String :=
 def cfgVal (cfg : List String) (name : String) : Option String :=
   cfg.findSome? fun t => if t.startsWith (name ++ "=") then some ((t.drop (name.length + 1)).toString) else none
 
-def initTable (cfg : List String) : Table :=
-  let l := ((cfgVal cfg "local").bind pKey).getD 0
-  let s := ((cfgVal cfg "bsize").bind String.toNat?).getD 20
-  Table.new l s
+structure Cfg where
+  localKey : Nat
+  bsize : Nat
+  timeout : Nat
+  keys : List Nat
 
-def showIns : InsertRes → String
+def parseCfg (cfg : List String) : Cfg :=
+  { localKey := ((cfgVal cfg "local").bind pKey).getD 0
+    bsize := ((cfgVal cfg "bsize").bind String.toNat?).getD 20
+    timeout := ((cfgVal cfg "timeout").bind String.toNat?).getD 60
+    keys := ((cfgVal cfg "keys").map fun s => (s.splitOn ",").filterMap pKey).getD [] }
+
+/-- key token: index into the case's key list, or `L` for the local key -/
+def keyOf (c : Cfg) (s : String) : Option Nat :=
+  if s = "L" then some c.localKey else s.toNat?.bind fun i => c.keys[i]?
+
+def idxOf (c : Cfg) (k : Nat) : String :=
+  if k = c.localKey then "L" else
+  match c.keys.findIdx? (· == k) with
+  | some i => toString i
+  | none => "?"
+
+def pSt (s : String) : Option C37.Status :=
+  if s = "c" then some .connected else if s = "d" then some .disconnected else none
+
+def showSt : C37.Status → String
+  | .connected => "c"
+  | .disconnected => "d"
+
+def showInfo (l : List (Nat × Nat × Bool)) : String :=
+  if l.isEmpty then "info:-" else
+  "info:" ++ ",".intercalate (l.map fun (i, n, hp) => s!"{i}.{n}.{if hp then 1 else 0}")
+
+/-- same tokens as the C37 harness prints for the result of a table operation -/
+def showRes (c : Cfg) : C37.OpResult → String
   | .isLocal => "local"
-  | .present => "present"
-  | .inserted => "inserted"
-  | .full => "full"
+  | .entry .isLocal => "local"
+  | .entry .absent => "absent"
+  | .entry (.present st v) => s!"present:{showSt st}:{v}"
+  | .entry (.pending st v) => s!"pendingentry:{showSt st}:{v}"
+  | .insert .inserted => "inserted"
+  | .insert .full => "full"
+  | .insert (.pending d) => s!"pending:{idxOf c d}"
+  | .removed v st false => s!"removed:{v}:{showSt st}"
+  | .removed v st true => s!"removedpending:{v}:{showSt st}"
+  | .unit => "ok"
+  | .info l => showInfo l
 
-/-- spec monitor state: the keys the IMPLEMENTATION reported as inserted -/
-structure Mon where
-  stored : List Nat
+def parseOp (c : Cfg) : List String → Option C37.Op
+  | ["ins", k, v, st] => do some (.insert (← keyOf c k) (← v.toNat?) (← pSt st))
+  | ["upd", k, st] => do some (.update (← keyOf c k) (← pSt st))
+  | ["rem", k] => do some (.remove (← keyOf c k))
+  | ["look", k] => do some (.lookup (← keyOf c k))
+  | ["bkt", k] => do some (.bucketInfo (← keyOf c k))
+  | ["iter"] => some .iter
+  | ["adv", n] => do some (.advance (← n.toNat?))
+  | _ => none
 
-def machine : Machine Table Mon where
-  init cfg := initTable cfg
-  specInit _ := ⟨[]⟩
-  op t args :=
+structure MSt where
+  cfg : Cfg
+  table : C37.Table
+
+def sortNat (l : List Nat) : List Nat := l.mergeSort (fun a b => decide (a ≤ b))
+
+def closestLine (s : MSt) (tg : String) : MSt × String :=
+  match pKey tg with
+  | some tg =>
+    let (t', out) := closestFull s.cfg.bsize s.table tg
+    ({ s with table := { t' with applied := [] } },
+      unwords [showKeys out, "#", showKeys (sortNat (storedKeys t'))])
+  | none => (s, "bad-op")
+
+def specClosest (tg ks stored : String) : String :=
+  match pKey tg, pKeys ks, pKeys stored with
+  | some tg, some ks, some stored =>
+    if !exactlyOnce stored ks then "FAIL:not_every_key_exactly_once"
+    else if !sortedTo tg ks then "FAIL:not_sorted_by_distance"
+    else if spec stored tg ks then "ok" else "FAIL:closest"
+  | _, _, _ => "FAIL:unparsable"
+
+def machine : Machine MSt Unit where
+  init cfg :=
+    let c := parseCfg cfg
+    ⟨c, C37.Table.new c.localKey c.bsize c.timeout⟩
+  specInit _ := ()
+  op s args :=
     match args with
-    | ["insert", k] =>
-      match pKey k with
-      | some k => let (t', r) := t.insert k; (t', showIns r)
-      | none => (t, "bad-op")
-    | ["closest", tg] =>
-      match pKey tg with
-      | some tg => (t, showKeys (closestKeys t tg))
-      | none => (t, "bad-op")
-    | ["closestv", tg] =>
-      match pKey tg with
-      | some tg => (t, showKeys (closestKeys t tg))
-      | none => (t, "bad-op")
+    | ["closest", tg] => closestLine s tg
+    | ["closestv", tg] => closestLine s tg
     | ["order", d] =>
       match pKey d with
-      | some d => (t, showNatList (bucketOrder d))
-      | none => (t, "bad-op")
-    | _ => (t, "bad-op")
-  spec m args outs :=
+      | some d => (s, showNatList (bucketOrder d))
+      | none => (s, "bad-op")
+    | _ =>
+      match parseOp s.cfg args with
+      | none => (s, "bad-op")
+      | some op =>
+        let (t1, r) := s.table.step op
+        ({ s with table := (t1.drain).1 }, showRes s.cfg r)
+  spec _ args outs :=
     match args, outs with
-    | ["insert", k], [r] =>
-      match pKey k with
-      | some k =>
-        if r = "inserted" then
-          if m.stored.contains k then (m, "FAIL:inserted_twice") else (⟨m.stored ++ [k]⟩, "ok")
-        else if r = "full" ∨ r = "present" ∨ r = "local" then (m, "ok")
-        else (m, "FAIL:insert_result")
-      | none => (m, "FAIL:unparsable")
-    | ["closest", tg], [ks] =>
-      match pKey tg, pKeys ks with
-      | some tg, some ks =>
-        if !exactlyOnce m.stored ks then (m, "FAIL:not_every_key_exactly_once")
-        else if !sortedTo tg ks then (m, "FAIL:not_sorted_by_distance")
-        else (m, if spec m.stored tg ks then "ok" else "FAIL:closest")
-      | _, _ => (m, "FAIL:unparsable")
-    | ["closestv", tg], [ks] =>
-      match pKey tg, pKeys ks with
-      | some tg, some ks =>
-        if !exactlyOnce m.stored ks then (m, "FAIL:not_every_key_exactly_once")
-        else if !sortedTo tg ks then (m, "FAIL:not_sorted_by_distance")
-        else (m, if spec m.stored tg ks then "ok" else "FAIL:closest")
-      | _, _ => (m, "FAIL:unparsable")
+    | ["closest", tg], [ks, "#", stored] => ((), specClosest tg ks stored)
+    | ["closestv", tg], [ks, "#", stored] => ((), specClosest tg ks stored)
     | ["order", _], [l] =>
       match natList l with
-      | some l => (m, if specOrder l then "ok" else "FAIL:bucket_order_not_a_permutation")
-      | none => (m, "FAIL:unparsable")
-    | _, _ => (m, "FAIL:unparsable")
+      | some l => ((), if specOrder l then "ok" else "FAIL:bucket_order_not_a_permutation")
+      | none => ((), "FAIL:unparsable")
+    | op :: _, [_] =>
+      -- table-building operations: judged by C37; here only the exact comparison with the model
+      ((), if ["ins", "upd", "rem", "look", "bkt", "iter", "adv"].contains op then "ok" else "FAIL:unparsable")
+    | _, _ => ((), "FAIL:unparsable")
 
 end Driver.C38
 
